@@ -47,15 +47,9 @@ void spec_update(spec_state_t *S, const unsigned char *key, unsigned keybits, un
      * keyed with the pre-inverted little-endian key words and the round count. */
     uint32_t kinv[8];
     for (unsigned j = 0; j < keybits / 32; ++j) kinv[j] = ~bytes_le(key + 4 * j, 4);
-    u128 r;
-    if (keybits == 128)
-        r = __CPROVER_uninterpreted_perm128(PACK4(S->w), PACK4(kinv), nsteps / 128);
-    else if (keybits == 192)
-        r = __CPROVER_uninterpreted_perm192(PACK4(S->w), PACK4(kinv),
-                (uint64_t)kinv[4] | ((uint64_t)kinv[5] << 32), nsteps / 128);
-    else
-        r = __CPROVER_uninterpreted_perm256(PACK4(S->w), PACK4(kinv), PACK4(kinv + 4), nsteps / 128);
-    UNPACK4(S->w, r);
+    if (keybits == 128) UF_APPLY(128, S->w, kinv, nsteps / 128);
+    else if (keybits == 192) UF_APPLY(192, S->w, kinv, nsteps / 128);
+    else UF_APPLY(256, S->w, kinv, nsteps / 128);
 #else
     spec_update_bitserial(S, key, keybits, nsteps);
 #endif
